@@ -433,7 +433,75 @@ static void wlGraph31() {
     graphProgram<dispenso::BiPropGraph>(31);
 }
 
+// A bidirectional group {T, G_1..G_k} whose members share ordinary dependents D_j outside the group: when
+// T is marked, the whole group is re-run but the D_j stay complete ("dependents of pulled-in members are
+// not re-run"), so each complete D_j has several incomplete predecessors finishing concurrently.  Whatever
+// bookkeeping the executors do on a complete node for each finishing predecessor must leave it complete.
+static void wlGraphBiFanIn() {
+  GRun g;
+  gg = &g;
+  Builder<dispenso::BiPropGraph> b;
+  b.biprop = true;
+  int nThreads = range(1, 4);
+  int k = range(2, 4);
+  int nD = range(1, 3);
+  bool useSub = chance(1, 2);
+  sim_note("pool", nThreads);
+  sim_note("members", k);
+  sim_note("dependents", nD);
+  dispenso::ThreadPool pool((size_t)nThreads);
+  if (useSub) {
+    b.subs.push_back(&b.graph.addSubgraph());
+    b.subs.push_back(&b.graph.addSubgraph());
+  }
+  // ids: 0..k-1 = G_i, k = T, k+1.. = D_j
+  int total = k + 1 + nD;
+  g.nodes.resize((size_t)total);
+  for (int i = 0; i < k; ++i)
+    b.addNode(i, useSub ? 0 : -1);
+  b.addNode(k, useSub ? 0 : -1);
+  for (int i = 0; i < k; ++i) {
+    depends(b.node(k), b.node(i), true);
+    g.nodes[(size_t)k].preds.push_back(i);
+    g.nodes[(size_t)k].bipreds.push_back(i);
+  }
+  for (int j = 0; j < nD; ++j) {
+    int id = k + 1 + j;
+    b.addNode(id, useSub ? 1 : -1);
+    int fan = range(2, k);
+    for (int i = 0; i < fan; ++i) {
+      depends(b.node(id), b.node(i), false);
+      g.nodes[(size_t)id].preds.push_back(i);
+    }
+  }
+  std::vector<bool> all((size_t)total, true);
+  setAllNodesIncomplete(b.graph);
+  execute(b, pool, (int)pick(4), "after-setAllNodesIncomplete");
+  checkAfter(b, all);
+  int rounds = range(1, 4);
+  for (int r = 0; r < rounds; ++r) {
+    b.node(k).setIncomplete();
+    dispenso::ForwardPropagator fp;
+    fp(b.graph);
+    std::vector<bool> expect((size_t)total, false);
+    for (int i = 0; i < total; ++i) {
+      expect[(size_t)i] = !b.node(i).isCompleted();
+      g.nodes[(size_t)i].modelComplete = !expect[(size_t)i];
+    }
+    // the reference: the group re-runs, the shared dependents do not
+    for (int i = 0; i <= k; ++i)
+      if (!expect[(size_t)i])
+        sim_fail("biprop-fanin:group-member-not-marked", "group member %d was not made incomplete by propagation from T", i);
+    for (int j = 0; j < nD; ++j)
+      if (expect[(size_t)(k + 1 + j)])
+        sim_fail("biprop-fanin:dependent-marked", "dependent %d of pulled-in members was made incomplete", k + 1 + j);
+    execute(b, pool, 1 + (int)pick(3), "biprop-fanin");
+    checkAfter(b, expect);
+  }
+}
+
 } // namespace
 
 HX_WORKLOAD("C30", "graph", wlGraph30, SF_ALL | SF_TSO, 6000000, 6000000, 1);
 HX_WORKLOAD("C31", "graph-partial", wlGraph31, SF_ALL | SF_TSO, 6000000, 6000000, 1);
+HX_WORKLOAD("C30", "graph-biprop-fanin", wlGraphBiFanIn, SF_ALL | SF_TSO, 3000000, 3000000, 1);
